@@ -190,6 +190,13 @@ class SFTPFile(BufferedFile):
         return msg.get_string()
 
     def _write(self, data):
+        if len(self._rbuffer) > 0:
+            # bytes were read ahead of the caller's position (readline or a
+            # buffered read): forget them, so that the write happens at the
+            # position the caller sees and later reads don't return stale data
+            self._rbuffer = bytes()
+            if not (self._flags & self.FLAG_APPEND):
+                self._realpos = self._pos
         # may write less than requested if it would exceed max packet size
         chunk = min(len(data), self.MAX_REQUEST_SIZE)
         sftp_async_request = self.sftp._async_request(
